@@ -6,4 +6,8 @@ export GOFLAGS=-mod=mod GOPROXY=off
 unset GOTOOLCHAIN GOSUMDB 2>/dev/null || true
 mkdir -p bin evidence replays
 (cd harness && go build -tags verif ./... )
+# race-detector builds (groups.txt third column)
+for g in $(awk '$3=="-race" {print $2}' harness/groups.txt | sort -u); do
+  (cd harness && go build -race -tags verif -o /dev/null ./cmd/vcheck-$g)
+done
 echo "setup ok"
